@@ -33,6 +33,7 @@ def run(ctx, crate):
     rule_head_only_reap(ctx, crate)
     rule_removal_keeps_screen_current(ctx, crate)
     rule_readd_noop(ctx, crate)
+    rule_unlink_frees_slot(ctx, crate)
     D.rule_render_unless_hidden(ctx, crate)
     D.rule_finished_draws_forced(ctx, crate)
     D.rule_rows_newtype(ctx, crate)
@@ -487,3 +488,45 @@ def rule_readd_noop(ctx, crate, rule="R-MULTI-READD-NOOP"):
                   "%s allocates a new slot and re-targets the bar without asking whether it is already a member: `mp.add(a); mp.add(b); mp.add(a.clone())` moves "
                   "a below b and leaves a's old slot in the ordering as a phantom member (documented: \"will have no effect\")" % K.meth(b.name), cfg)
     ctx.floor(rule, n, 1, cfg, "functions that allocate a slot for a caller's bar")
+
+
+def rule_unlink_frees_slot(ctx, crate, rule="R-UNLINK-FREES-SLOT"):
+    """"in the order defined by add/insert/../remove": positions count *members*. A bar stops being a member when it is removed,
+    dropped - or given another draw target (`ProgressBar::set_draw_target`, documented as "will unlink this progress bar"; also
+    what `add` does to a bar that belonged to another MultiProgress). Whoever replaces the target of a bar must give the
+    slot of a remote target back (`MultiState::remove_idx`), otherwise the emptied slot stays in the ordering as a phantom
+    member: `insert(index, ..)` counts it, and at the head it blocks the reaping of finished bars behind it.
+      (a) `ProgressDrawTarget::disconnect`: with the target being `Multi`, every path to the return passes `remove_idx`;
+      (b) every store that replaces `BarState::draw_target` is preceded on every path by `disconnect` (or followed by
+          `remove_idx` in the same function: MultiProgress::remove)."""
+    cfg = crate.config
+    TK = "draw_target::TargetKind"
+    d = K.find_one(ctx, crate, rule, r"draw_target::ProgressDrawTarget::disconnect")
+    n = 0
+    if d:
+        R, avoid = K.variant_reach(d, crate, TK, "Multi", None, want_avoid=True)
+        rm = [c.bb for c in d.calls(r"multi::MultiState::remove_idx")]
+        ok = bool(rm) and not (d.reach([0], avoid=rm, avoid_edges=avoid) & set(d.return_blocks()))
+        n += 1
+        ctx.check(ok, rule, "disconnect-frees-slot", d.name, K.fn_loc(d),
+                  "disconnecting a bar from its MultiProgress frees its slot on every path",
+                  "a bar that is given another draw target keeps its (emptied) slot in the MultiProgress: the phantom member still counts in insert(index, ..) - "
+                  "add a, add b, a.set_draw_target(hidden), insert(1, c) shows c above b", cfg)
+    for b in K.lib_bodies(crate):
+        if b.kind == "Closure" or K.meth(b.name) in ("new", "with_draw_target", "new_with_draw_target"):
+            continue
+        for i, j, s in b.assigns():
+            fs = place_fields(s["lhs"])
+            if not fs or fs[-1][0] != "state::BarState" or fs[-1][2] != "draw_target" or len([f for f in fs if f[0] == "state::BarState"]) != 1:
+                continue
+            if s["rv"]["k"] == "agg":
+                continue
+            n += 1
+            dis = [c.bb for c in b.calls(r"draw_target::ProgressDrawTarget::disconnect")]
+            rms = [c.bb for c in b.calls(r"multi::MultiState::remove_idx")]
+            before = bool(dis) and i not in b.reach([0], avoid=dis)
+            after = bool(rms) and b.must_pass(b.succ(i) or [i], rms)
+            ctx.check(before or after, rule, "replace-unlinks:%s" % K.meth(b.name), b.name, "%s:%d" % (b.file, s.get("line", 0)),
+                      "the old target is disconnected (its slot freed) before the bar's draw target is replaced",
+                      "%s replaces the bar's draw target without disconnecting the old one: a member's slot stays behind" % K.meth(b.name), cfg)
+    ctx.floor(rule, n, 3, cfg, "disconnect + stores that replace BarState::draw_target")
